@@ -143,6 +143,34 @@ LAYOUT = Layout(CLS, FIELDS, aliases={"Key": "Tup"}, views=VIEWS,
 INJ = "all(implies(0 <= a and a < b and b < len(edge_list), canon(edge_list[a]) != canon(edge_list[b])) for a in Int for b in Int)"
 
 
+# number of nodes of a set whose value under a node -> int table equals d (fold-defined specification function; histogram of degrees)
+HIST = z3.Function("hist", z3.ArraySort(T.I, T.B), z3.ArraySort(T.I, T.I), T.I, T.I)
+_hs, _hv, _hx, _hd = z3.Const("_hs", z3.ArraySort(T.I, T.B)), z3.Const("_hv", z3.ArraySort(T.I, T.I)), z3.Int("_hx"), z3.Int("_hd")
+TH.EXTRA.update({
+    "hist_empty (definition)": z3.ForAll([_hv, _hd], HIST(z3.K(T.I, z3.BoolVal(False)), _hv, _hd) == 0, patterns=[HIST(z3.K(T.I, z3.BoolVal(False)), _hv, _hd)]),
+    "hist_step (definition)": z3.ForAll([_hs, _hv, _hx, _hd], z3.Implies(z3.Not(_hs[_hx]),
+        HIST(z3.Store(_hs, _hx, True), _hv, _hd) == HIST(_hs, _hv, _hd) + z3.If(_hv[_hx] == _hd, 1, 0)), patterns=[HIST(z3.Store(_hs, _hx, True), _hv, _hd)]),
+    "hist_nonneg (lemma: induction on the fold)": z3.ForAll([_hs, _hv, _hd], HIST(_hs, _hv, _hd) >= 0, patterns=[HIST(_hs, _hv, _hd)]),
+})
+
+
+def _hist_inv(eng, p, cx):
+    done, seq, dist = p.env["_done0"].t, p.env["degree_seq"], p.env["degree_dist"]
+    d = fresh("d", T.I)
+    return {"dom": z3.ForAll([d], dist.dom[d] == (HIST(done, seq.val, d) >= 1), patterns=[dist.dom[d]]),
+            "val": z3.ForAll([d], z3.Implies(dist.dom[d], dist.val[d] == HIST(done, seq.val, d)), patterns=[dist.val[d]])}
+
+
+def _hist_post(which):
+    def post(eng, p, cx):
+        seq, res = cx.locals_env["degree_seq"], cx.result
+        d = fresh("d", T.I)
+        if which == "dom":       # a degree is listed iff some node has it
+            return z3.ForAll([d], res.dom[d] == (HIST(seq.dom, seq.val, d) >= 1), patterns=[res.dom[d]])
+        return z3.ForAll([d], z3.Implies(res.dom[d], res.val[d] == HIST(seq.dom, seq.val, d)), patterns=[res.val[d]])
+    return post
+
+
 def C(name, **kw):
     kw.setdefault("properties", ["C01"])
     return Contract(f"{CLS}.{name}", FILE, [CLS, name], self_cls=CLS, **kw)
@@ -522,12 +550,30 @@ CONTRACTS = [
       raises={"ValueError": "(order is not None and size is not None) or node not in V(self)"},
       ensures={"result": "result == card({k for k in E(self) if node in k and sel(self, k, order, size, False)})"},
       properties=["C01", "C08"]),
+    C("degree_sequence", params={"order": "Opt[Int]", "size": "Opt[Int]"}, result="Map[Int,Int]", pure=True,
+      requires={"wf": "wf(self)"},
+      raises={"ValueError": "order is not None and size is not None"},
+      ensures={"dom": "all((n in result) == (n in V(self)) for n in Node)",
+               "val": "all(result[n] == card({k for k in E(self) if n in k and sel(self, k, order, size, False)}) for n in V(self))"},
+      properties=["C01", "C08"]),
     Contract("degree_sequence[Hypergraph]", "hypergraphx/measures/degree.py", ["degree_sequence"], properties=["C01", "C08"],
       params={"hg": "Obj[Hypergraph]", "order": "Opt[Int]", "size": "Opt[Int]"}, result="Map[Int,Int]", pure=True,
       requires={"wf": "wf(hg)"},
       raises={"ValueError": "order is not None and size is not None"},
       ensures={"dom": "all((n in result) == (n in V(hg)) for n in Node)",
                "val": "all(result[n] == card({k for k in E(hg) if n in k and sel(hg, k, order, size, False)}) for n in V(hg))"}),
+    # histogram view: result[d] = number of nodes whose degree (the verified degree_sequence under the same filter) is d; `hist` is the
+    # fold-defined count over the node set of the local table degree_seq, whose values the callee's contract fixes to the degrees
+    Contract("degree_distribution[Hypergraph]", "hypergraphx/measures/degree.py", ["degree_distribution"], properties=["C01", "C08"],
+      params={"hg": "Obj[Hypergraph]", "order": "Opt[Int]", "size": "Opt[Int]"}, result="Map[Int,Int]", pure=True,
+      locals={"degree_dist": "Map[Int,Int]", "degree_seq": "Map[Int,Int]"},
+      requires={"wf": "wf(hg)"},
+      raises={"ValueError": "order is not None and size is not None"},
+      ensures={"dom": _hist_post("dom"), "val": _hist_post("val"),
+               # ... and that table is the degree sequence under the SAME filter
+               "seq_dom": 'all((n in local("degree_seq")) == (n in V(hg)) for n in Node)',
+               "seq_val": 'all(local("degree_seq")[n] == card({k for k in E(hg) if n in k and sel(hg, k, order, size, False)}) for n in V(hg))'},
+      invariants={0: {"hist": _hist_inv}}),
     # ------------------------------------------------------------------ extraction (C05)
     C("subhypergraph", params={"nodes": "Bag[Int]"}, result="Obj[Hypergraph]", pure=True,
       requires={"wf": "wf(self)", "present": "all(n in V(self) for n in nodes)"},
